@@ -464,7 +464,12 @@ class Engine:
 
     def map_store(self, st, m, k, v, node=None):
         kt = self.key_term(k)
-        vt = self.flatten(st, ('any',), v)[0]
+        if isinstance(v, VU):
+            vt = self.flatten(st, ('any',), v.alts[-1][1])[0]
+            for c, x in reversed(v.alts[:-1]):
+                vt = ITE(c, self.flatten(st, ('any',), x)[0], vt)
+        else:
+            vt = self.flatten(st, ('any',), v)[0]
         self.map_write(st, m.t, z3.Store(self.map_dom(st, m.t), kt, TRUE), z3.Store(self.map_val(st, m.t), kt, vt))
 
     def map_update(self, st, m, src):
